@@ -24,6 +24,34 @@ type schedWorld struct {
 	admin bool
 }
 
+// podsWorld: workloads given as Pod documents sharing a controller ownerReference (a dump of a live cluster). The pods of
+// one workload differ in everything pod-specific (name, node address, pod address); which of them stands for the workload
+// is decided inside a map range. Policies name the node addresses exactly (ipBlock /32).
+func podsWorld() schedWorld {
+	nss := []wm.NS{{Name: "ns1", Labels: map[string]string{"team": "a"}, HasObj: true}}
+	w := &wm.World{NSs: nss,
+		WLs: []wm.Workload{
+			{Kind: "ReplicaSet", NS: "ns1", Name: "web", Labels: map[string]string{"app": "web"}, Ports: []wm.CPort{{Name: "http", Num: 80}}, Replicas: 3},
+			{Kind: "ReplicaSet", NS: "ns1", Name: "api", Labels: map[string]string{"app": "api"}, Ports: []wm.CPort{{Name: "http", Num: 8080}}, Replicas: 2},
+			{Kind: "Deployment", NS: "ns1", Name: "cli", Labels: map[string]string{"app": "cli"}, Replicas: 1},
+		},
+		NPs: []wm.NP{{NS: "ns1", Name: "nodes", PodSel: wm.Sel{}, Types: []string{"Ingress", "Egress"},
+			Ingress: []wm.NPRule{{Peers: []wm.NPPeer{{CIDR: wm.PodHostIP(0) + "/32"}}, Ports: []wm.NPPort{{HasPort: true, Num: 80}}},
+				{Peers: []wm.NPPeer{{CIDR: wm.PodHostIP(1) + "/32"}, {CIDR: wm.PodIP(0) + "/32"}}, Ports: []wm.NPPort{{HasPort: true, Num: 81}}},
+				{Peers: []wm.NPPeer{{Pod: all}}, Ports: []wm.NPPort{{HasPort: true, Name: "http"}}}},
+			Egress: []wm.NPRule{{Peers: []wm.NPPeer{{CIDR: wm.PodHostIP(2) + "/32"}, {Pod: all}}, Ports: []wm.NPPort{{HasPort: true, Num: 8080}}}}}}}
+	nw := *w
+	nw.WLs = nil
+	infos := nw.Infos()
+	infos = append(infos, wm.Express(w.WLs[0], "Pods", 3)...)
+	api2 := w.WLs[1]
+	api2.Ports = []wm.CPort{{Name: "http", Num: 9090}}
+	infos = append(infos, wm.Express(w.WLs[1], "PodsExtraOwner", 1)...)
+	infos = append(infos, wm.Express(api2, "Pods", 2)[1])
+	infos = append(infos, wm.Express(w.WLs[2], "Deployment", 1)...)
+	return schedWorld{w: w, infos: infos}
+}
+
 type point struct {
 	Site string
 	N    int
@@ -75,13 +103,16 @@ func schedWorlds(quick bool) []schedWorld {
 		}
 		ws = append(ws, w)
 	}
-	if !quick {
-		ws = append(ws, &wm.World{NSs: nss, WLs: wls, NPs: []wm.NP{np1, np2, np3}, Svcs: svcs, Ings: ings, Routes: routes},
-			&wm.World{NSs: nss, WLs: wls, ANPs: anps, BANP: banp, Svcs: svcs, Routes: routes})
-	}
 	var res []schedWorld
 	for _, w := range ws {
 		res = append(res, schedWorld{w: w, infos: w.Infos(), admin: len(w.ANPs) > 0 || w.BANP != nil})
+	}
+	res = append(res, podsWorld()) // index 7 in both tiers
+	if !quick {
+		for _, w := range []*wm.World{{NSs: nss, WLs: wls, NPs: []wm.NP{np1, np2, np3}, Svcs: svcs, Ings: ings, Routes: routes},
+			{NSs: nss, WLs: wls, ANPs: anps, BANP: banp, Svcs: svcs, Routes: routes}} {
+			res = append(res, schedWorld{w: w, infos: w.Infos(), admin: len(w.ANPs) > 0 || w.BANP != nil})
+		}
 	}
 	return res
 }
@@ -245,7 +276,7 @@ func evalSched(cs schedCase, x *fw.Rec) {
 	site := pts[cs.P].Site
 	what := fmt.Sprintf("iterating the map at %s (%d keys, dynamic range execution #%d) in order %v%s", site, pts[cs.P].N, cs.P, permOf(cs.Alt, pts[cs.P].N), second)
 	x.Describe(func() any {
-		return map[string]any{"schedule": what, "world": schedWs[cs.WI].w.Brief(), "manifests": schedWs[cs.WI].w.YAMLDocs(), "range_executions_in_this_run": len(gpts)}
+		return map[string]any{"schedule": what, "world": schedWs[cs.WI].w.Brief(), "manifests": wm.InfoYAML(schedWs[cs.WI].infos), "range_executions_in_this_run": len(gpts)}
 	})
 	if cs.Q >= 0 && second == "" {
 		x.Count("second_deviation_point_not_reached (same as bound 1)", 1)
